@@ -321,6 +321,46 @@ def live(ctx, n):
     ctx.correspond("live", IMPORTS, "match_case", "check_match_case", lits, cj, shard=10)
 
 
+def overlap(ctx, n):
+    """Hits that overlap in time: while one thread is inside the actions of a tracepoint (parked in a log field),
+    other threads reach their own tracepoints; every one of them must act."""
+    from deep.api.tracepoint.trigger import LocationAction, Trigger, LineLocation, Location
+    rng = ctx.rng
+    for k in range(n):
+        world = e2.World(logger=True, spans=0, metrics=0)
+        world.clear_pending()
+        entered, release = threading.Event(), threading.Event()
+
+        def gate():
+            entered.set()
+            release.wait(5)
+            return "g"
+        conf = {"fire_count": "-1", "fire_period": "0"}
+        slow = LocationAction("tp0", None, dict(conf, log_msg="{gate()}"), LocationAction.ActionType.Log)
+        others = rng.choice([1, 2, 3])
+        trigs = [Trigger(LineLocation("m.py", 7, Location.Position.START), [slow])]
+        for i in range(others):
+            trigs.append(Trigger(LineLocation("m.py", 20 + i, Location.Position.START),
+                                 [LocationAction("tp%d" % (i + 1), None, dict(conf, log_msg="fast"), LocationAction.ActionType.Log)]))
+        world.install(trigs)
+        t0 = threading.Thread(target=lambda: world.handler.trace_call(e2.mk_frame("/app/m.py", "f", 7, {"gate": gate}), "line", None), daemon=True)
+        t0.start()
+        entered.wait(5)
+        for i in range(others):
+            t = threading.Thread(target=lambda i=i: world.handler.trace_call(e2.mk_frame("/app/m.py", "g", 20 + i, {}), "line", None), daemon=True)
+            t.start()
+            t.join(5)
+        acted_meanwhile = sorted(int(str(tp)[2:]) for w, tp, _i, _p in world.log if w == "log")
+        release.set()
+        t0.join(5)
+        j = dict(overlap=True, parked_tracepoint=0, other_threads=others, acted_while_parked=acted_meanwhile)
+        ctx.case(j, nontrivial=True, bucket="overlap")
+        if acted_meanwhile != list(range(1, others + 1)):
+            ctx.fail("while one thread was inside the actions of tracepoint 0, tracepoints %r acted for the %d other threads that reached "
+                     "theirs (every one of 1..%d must act)" % (acted_meanwhile, others, others), j, kind="schedule", tag="overlap-dropped")
+        world.clear_pending()
+
+
 def e2_build():
     from ..lib import coqrun
     return coqrun.BUILD
@@ -346,6 +386,7 @@ def run(ctx):
     synthetic(ctx, 600 if ctx.thorough else 100, True)
     gated(ctx, 600 if ctx.thorough else 100)
     live(ctx, 60 if ctx.thorough else 12)
+    overlap(ctx, 30 if ctx.thorough else 6)
 
 
 def replay(ctx, data):
